@@ -7,6 +7,8 @@
 -/
 import Rl.Editor
 import Rl.Spec.OracleNav
+import Rl.Lemmas.EditorM
+import Rl.Lemmas.EditorOps
 open Rl Rl.Spec
 
 /-- Spec: moving up from entry `i+1` shows entry `i` exactly as stored, cursor at its end. -/
@@ -52,9 +54,493 @@ theorem C07_spec_stops_at_oldest (hist : List Text) (st : NavSt) (o : Obs)
 /-- Model: the history handed to a read is only read (`histGet`), entry by index. -/
 theorem C07_model_reads_stored_entry (cfg : EdCfg) (i : Nat) : histGet cfg i = cfg.hist[i]? := rfl
 
-/-- Full statements about the model (refinement of the spec machine), work in progress. -/
+/-- Statement about the model: `PreviousHistory` from index `i+1` shows `hist[i]` exactly as stored,
+    cursor at its end, index `i` (proved below as `C07_model_prev`). -/
 def C07_model_prev_statement : Prop :=
   ∀ (S : Segmenter) (U : UData) (cfg : EdCfg) (s s' : Ed) (e : Text),
     0 < s.histIdx → s.histIdx ≤ cfg.hist.length → cfg.hist[s.histIdx - 1]? = some e → s.line.canGrow = true →
     editHistoryNext S U cfg true s = .ok ((), s') →
     s'.line.buf = e ∧ s'.line.pos = blen e ∧ s'.histIdx = s.histIdx - 1
+
+/-! ### the model refines a declarative navigation machine on (line, cursor, index, saved line) -/
+
+/-- the part of the editor state history navigation is about -/
+structure Nav where
+  buf : Text
+  pos : Nat
+  idx : Nat
+  savedBuf : Text
+  savedPos : Nat
+deriving DecidableEq
+
+def navOf (s : Ed) : Nav := ⟨s.line.buf, s.line.pos, s.histIdx, s.saved.buf, s.saved.pos⟩
+
+/-- what the model needs to navigate without panicking: growable buffers (true of the editor's two
+    buffers), cursors inside their texts, index within the history -/
+structure NavOK (cfg : EdCfg) (s : Ed) : Prop where
+  lineGrow : s.line.canGrow = true
+  savedGrow : s.saved.canGrow = true
+  linePos : s.line.pos ≤ blen s.line.buf
+  savedPos : s.saved.pos ≤ blen s.saved.buf
+  idx : s.histIdx ≤ cfg.hist.length
+
+/-- declarative "previous entry" -/
+def navPrev (hist : List Text) (n : Nav) : Nav :=
+  if n.idx = 0 then n
+  else match hist[n.idx - 1]? with
+    | some e =>
+      { buf := e, pos := blen e, idx := n.idx - 1,
+        savedBuf := if n.idx = hist.length then n.buf else n.savedBuf,
+        savedPos := if n.idx = hist.length then n.pos else n.savedPos }
+    | none => n
+
+/-- declarative "next entry" -/
+def navNext (hist : List Text) (n : Nav) : Nav :=
+  if hist.length ≤ n.idx then n
+  else match hist[n.idx + 1]? with
+    | some e => { n with buf := e, pos := blen e, idx := n.idx + 1 }
+    | none => { n with buf := n.savedBuf, pos := n.savedPos, idx := hist.length }
+
+theorem C07_prev_spec (S : Segmenter) (U : UData) (cfg : EdCfg) (hnp : cfg.hinterPanicAt = none) (s : Ed)
+    (h : NavOK cfg s) :
+    wp (editHistoryNext S U cfg true)
+      (fun _ s' => navOf s' = navPrev cfg.hist (navOf s) ∧ NavOK cfg s' ∧ s'.ring = s.ring)
+      (fun _ _ => False) s := by
+  obtain ⟨h1, h2, h3, h4, h5⟩ := h
+  unfold editHistoryNext
+  simp only [wp_bind, wp_ite, wp_pure, wp_getHistIdx, wp_setHistIdx, if_true]
+  by_cases hlen : cfg.hist.length = 0
+  · have : s.histIdx = 0 := by omega
+    simp [hlen, navPrev, navOf, this]
+    exact ⟨h1, h2, h3, h4, by omega⟩
+  · have hl0 : (cfg.hist.length == 0) = false := by simp [hlen]
+    simp only [hl0, Bool.false_eq_true, if_false]
+    by_cases hend : s.histIdx = cfg.hist.length
+    · have he : (s.histIdx == cfg.hist.length) = true := by simp [hend]
+      simp only [he, if_true]
+      refine wp_backup S U h2 h3 ?_
+      have hlt : s.histIdx - 1 < cfg.hist.length := by omega
+      simp only [hlt, if_true]
+      obtain ⟨e, hge⟩ : ∃ e, cfg.hist[s.histIdx - 1]? = some e := by
+        exact ⟨cfg.hist[s.histIdx - 1], by simp [hlt]⟩
+      simp only [histGet, hge, wp_bind, wp_setHistIdx]
+      refine wp_showEntry S U h1 (Nat.le_refl _) ?_
+      refine wp_refreshLine_np S U cfg hnp fun s' hc => ?_
+      obtain ⟨c1, c2, _, c4, c5, _, _⟩ := Ed.core_eq hc
+      have hne : s.histIdx ≠ 0 := by omega
+      refine ⟨?_, ⟨?_, ?_, ?_, ?_, ?_⟩, c4⟩
+      · have hnil : cfg.hist ≠ [] := by intro h; simp [h] at hlen
+        have hge' := hge
+        rw [hend] at hge'
+        simp [navOf, navPrev, c1, c2, c5, hne, hge', hend, LB.updated, hnil]
+      · rw [c1]; exact h1
+      · rw [c2]; exact h2
+      · rw [c1]; exact Nat.le_refl _
+      · rw [c2]; exact h3
+      · rw [c5]; simp only []; omega
+    · have he : (s.histIdx == cfg.hist.length) = false := by simp [hend]
+      simp only [he, Bool.false_eq_true, if_false]
+      by_cases h0 : s.histIdx = 0
+      · simp [h0, navPrev, navOf]
+        exact ⟨h1, h2, h3, h4, by omega⟩
+      · have h0' : (s.histIdx == 0 && true) = false := by simp [h0]
+        simp only [h0', Bool.false_eq_true, if_false]
+        have hlt : s.histIdx - 1 < cfg.hist.length := by omega
+        simp only [hlt, if_true]
+        obtain ⟨e, hge⟩ : ∃ e, cfg.hist[s.histIdx - 1]? = some e := by
+          exact ⟨cfg.hist[s.histIdx - 1], by simp [hlt]⟩
+        simp only [histGet, hge, wp_bind, wp_setHistIdx]
+        refine wp_showEntry S U h1 (Nat.le_refl _) ?_
+        refine wp_refreshLine_np S U cfg hnp fun s' hc => ?_
+        obtain ⟨c1, c2, _, c4, c5, _, _⟩ := Ed.core_eq hc
+        refine ⟨?_, ⟨?_, ?_, ?_, ?_, ?_⟩, c4⟩
+        · simp [navOf, navPrev, c1, c2, c5, h0, hge, hend, LB.updated]
+        · rw [c1]; exact h1
+        · rw [c2]; exact h2
+        · rw [c1]; exact Nat.le_refl _
+        · rw [c2]; exact h4
+        · rw [c5]; simp only []; omega
+
+theorem C07_next_spec (S : Segmenter) (U : UData) (cfg : EdCfg) (hnp : cfg.hinterPanicAt = none) (s : Ed)
+    (h : NavOK cfg s) :
+    wp (editHistoryNext S U cfg false)
+      (fun _ s' => navOf s' = navNext cfg.hist (navOf s) ∧ NavOK cfg s' ∧ s'.ring = s.ring)
+      (fun _ _ => False) s := by
+  obtain ⟨h1, h2, h3, h4, h5⟩ := h
+  unfold editHistoryNext
+  simp only [wp_bind, wp_ite, wp_pure, wp_getHistIdx, wp_setHistIdx, Bool.false_eq_true, if_false, Bool.and_false]
+  by_cases hlen : cfg.hist.length = 0
+  · have : s.histIdx = 0 := by omega
+    simp [hlen, navNext, navOf, this]
+    exact ⟨h1, h2, h3, h4, by omega⟩
+  · have hl0 : (cfg.hist.length == 0) = false := by simp [hlen]
+    simp only [hl0, Bool.false_eq_true, if_false]
+    by_cases hend : s.histIdx = cfg.hist.length
+    · have he : (s.histIdx == cfg.hist.length) = true := by simp [hend]
+      simp only [he, if_true]
+      refine ⟨?_, ⟨h1, h2, h3, h4, h5⟩, trivial⟩
+      simp [navNext, navOf, hend]
+    · have he : (s.histIdx == cfg.hist.length) = false := by simp [hend]
+      simp only [he, Bool.false_eq_true, if_false]
+      by_cases hlt : s.histIdx + 1 < cfg.hist.length
+      · simp only [hlt, if_true]
+        obtain ⟨e, hge⟩ : ∃ e, cfg.hist[s.histIdx + 1]? = some e := by
+          exact ⟨cfg.hist[s.histIdx + 1], by simp [hlt]⟩
+        simp only [histGet, hge, wp_bind, wp_setHistIdx]
+        refine wp_showEntry S U h1 (Nat.le_refl _) ?_
+        refine wp_refreshLine_np S U cfg hnp fun s' hc => ?_
+        obtain ⟨c1, c2, _, c4, c5, _, _⟩ := Ed.core_eq hc
+        refine ⟨?_, ⟨?_, ?_, ?_, ?_, ?_⟩, c4⟩
+        · have : ¬ cfg.hist.length ≤ s.histIdx := by omega
+          simp [navOf, navNext, c1, c2, c5, hge, this, LB.updated]
+        · rw [c1]; exact h1
+        · rw [c2]; exact h2
+        · rw [c1]; exact Nat.le_refl _
+        · rw [c2]; exact h4
+        · rw [c5]; simp only []; omega
+      · simp only [hlt, if_false]
+        refine wp_restore S U h1 h4 ?_
+        refine wp_refreshLine_np S U cfg hnp fun s' hc => ?_
+        obtain ⟨c1, c2, _, c4, c5, _, _⟩ := Ed.core_eq hc
+        have hidx : s.histIdx + 1 = cfg.hist.length := by omega
+        have hnone : cfg.hist[s.histIdx + 1]? = none := by simp; omega
+        refine ⟨?_, ⟨?_, ?_, ?_, ?_, ?_⟩, c4⟩
+        · have : ¬ cfg.hist.length ≤ s.histIdx := by omega
+          simp [navOf, navNext, c1, c2, c5, hnone, this, LB.updated, hidx]
+        · rw [c1]; exact h1
+        · rw [c2]; exact h2
+        · rw [c1]; exact h4
+        · rw [c2]; exact h4
+        · rw [c5]; simp only []; omega
+
+/-- declarative "first entry" / "back to the line being typed" -/
+def navFirst (hist : List Text) (n : Nav) : Nav :=
+  if n.idx = 0 then n
+  else match hist[0]? with
+    | some e =>
+      { buf := e, pos := blen e, idx := 0,
+        savedBuf := if n.idx = hist.length then n.buf else n.savedBuf,
+        savedPos := if n.idx = hist.length then n.pos else n.savedPos }
+    | none => n
+
+def navLast (hist : List Text) (n : Nav) : Nav :=
+  if hist.length ≤ n.idx then n
+  else { n with buf := n.savedBuf, pos := n.savedPos, idx := hist.length }
+
+theorem C07_first_spec (S : Segmenter) (U : UData) (cfg : EdCfg) (hnp : cfg.hinterPanicAt = none) (s : Ed)
+    (h : NavOK cfg s) :
+    wp (editHistory S U cfg true)
+      (fun _ s' => navOf s' = navFirst cfg.hist (navOf s) ∧ NavOK cfg s' ∧ s'.ring = s.ring)
+      (fun _ _ => False) s := by
+  obtain ⟨h1, h2, h3, h4, h5⟩ := h
+  unfold editHistory
+  simp only [wp_bind, wp_ite, wp_pure, wp_getHistIdx, wp_setHistIdx, if_true]
+  by_cases hlen : cfg.hist.length = 0
+  · have : s.histIdx = 0 := by omega
+    simp [hlen, navFirst, navOf, this]
+    exact ⟨h1, h2, h3, h4, by omega⟩
+  · have hl0 : (cfg.hist.length == 0) = false := by simp [hlen]
+    have hnil : cfg.hist ≠ [] := by intro h; simp [h] at hlen
+    obtain ⟨e, hge⟩ : ∃ e, cfg.hist[0]? = some e := ⟨cfg.hist[0]'(by omega), by simp⟩
+    simp only [hl0, Bool.false_eq_true, if_false]
+    by_cases hend : s.histIdx = cfg.hist.length
+    · have he : (s.histIdx == cfg.hist.length) = true := by simp [hend]
+      simp only [he, if_true]
+      refine wp_backup S U h2 h3 ?_
+      simp only [histGet, hge, wp_bind, wp_setHistIdx]
+      refine wp_showEntry S U h1 (Nat.le_refl _) ?_
+      refine wp_refreshLine_np S U cfg hnp fun s' hc => ?_
+      obtain ⟨c1, c2, _, c4, c5, _, _⟩ := Ed.core_eq hc
+      refine ⟨?_, ⟨?_, ?_, ?_, ?_, ?_⟩, c4⟩
+      · simp [navOf, navFirst, c1, c2, c5, hge, hend, LB.updated, hnil]
+      · rw [c1]; exact h1
+      · rw [c2]; exact h2
+      · rw [c1]; exact Nat.le_refl _
+      · rw [c2]; exact h3
+      · rw [c5]; simp only []; omega
+    · have he : (s.histIdx == cfg.hist.length) = false := by simp [hend]
+      simp only [he, Bool.false_eq_true, if_false]
+      by_cases h0 : s.histIdx = 0
+      · simp [h0, navFirst, navOf]
+        exact ⟨h1, h2, h3, h4, by omega⟩
+      · have h0' : (s.histIdx == 0 && true) = false := by simp [h0]
+        simp only [h0', Bool.false_eq_true, if_false]
+        simp only [histGet, hge, wp_bind, wp_setHistIdx]
+        refine wp_showEntry S U h1 (Nat.le_refl _) ?_
+        refine wp_refreshLine_np S U cfg hnp fun s' hc => ?_
+        obtain ⟨c1, c2, _, c4, c5, _, _⟩ := Ed.core_eq hc
+        refine ⟨?_, ⟨?_, ?_, ?_, ?_, ?_⟩, c4⟩
+        · simp [navOf, navFirst, c1, c2, c5, h0, hge, hend, LB.updated]
+        · rw [c1]; exact h1
+        · rw [c2]; exact h2
+        · rw [c1]; exact Nat.le_refl _
+        · rw [c2]; exact h4
+        · rw [c5]; simp only []; omega
+
+theorem C07_last_spec (S : Segmenter) (U : UData) (cfg : EdCfg) (hnp : cfg.hinterPanicAt = none) (s : Ed)
+    (h : NavOK cfg s) :
+    wp (editHistory S U cfg false)
+      (fun _ s' => navOf s' = navLast cfg.hist (navOf s) ∧ NavOK cfg s' ∧ s'.ring = s.ring)
+      (fun _ _ => False) s := by
+  obtain ⟨h1, h2, h3, h4, h5⟩ := h
+  unfold editHistory
+  simp only [wp_bind, wp_ite, wp_pure, wp_getHistIdx, wp_setHistIdx, Bool.false_eq_true, if_false, Bool.and_false]
+  by_cases hlen : cfg.hist.length = 0
+  · have : s.histIdx = 0 := by omega
+    simp [hlen, navLast, navOf, this]
+    exact ⟨h1, h2, h3, h4, by omega⟩
+  · have hl0 : (cfg.hist.length == 0) = false := by simp [hlen]
+    simp only [hl0, Bool.false_eq_true, if_false]
+    by_cases hend : s.histIdx = cfg.hist.length
+    · have he : (s.histIdx == cfg.hist.length) = true := by simp [hend]
+      simp only [he, if_true]
+      refine ⟨?_, ⟨h1, h2, h3, h4, h5⟩, trivial⟩
+      simp [navLast, navOf, hend]
+    · have he : (s.histIdx == cfg.hist.length) = false := by simp [hend]
+      simp only [he, Bool.false_eq_true, if_false]
+      refine wp_restore S U h1 h4 ?_
+      refine wp_refreshLine_np S U cfg hnp fun s' hc => ?_
+      obtain ⟨c1, c2, _, c4, c5, _, _⟩ := Ed.core_eq hc
+      refine ⟨?_, ⟨?_, ?_, ?_, ?_, ?_⟩, c4⟩
+      · have : ¬ cfg.hist.length ≤ s.histIdx := by omega
+        simp [navOf, navLast, c1, c2, c5, this, LB.updated]
+      · rw [c1]; exact h1
+      · rw [c2]; exact h2
+      · rw [c1]; exact h4
+      · rw [c2]; exact h4
+      · rw [c5]; exact Nat.le_refl _
+
+/-- `backup` touches the saved line only (whatever it does to it) -/
+theorem C07_wp_backup_any (S : Segmenter) (U : UData) {s : Ed} {Q : Unit → Ed → Prop} {E : Rl.Outcome → Ed → Prop}
+    (hq : ∀ sv, Q () { s with saved := sv }) (he : E .panic s) : wp (backup S U) Q E s := by
+  unfold wp backup
+  cases h : LB.update S U s.line.buf s.line.pos s.saved with
+  | error e => exact he
+  | ok r => obtain ⟨_, sv, _⟩ := r; exact hq sv
+
+theorem C07_model_prev : C07_model_prev_statement := by
+  intro S U cfg s s' e h0 h5 hge h1 hrun
+  have hw : wp (editHistoryNext S U cfg true)
+      (fun _ s' => s'.line.buf = e ∧ s'.line.pos = blen e ∧ s'.histIdx = s.histIdx - 1) (fun _ _ => True) s := by
+    unfold editHistoryNext
+    simp only [wp_bind, wp_ite, wp_pure, wp_getHistIdx, wp_setHistIdx, if_true]
+    have hlen : cfg.hist.length ≠ 0 := by omega
+    have hl0 : (cfg.hist.length == 0) = false := by simp [hlen]
+    have hlt : s.histIdx - 1 < cfg.hist.length := by omega
+    have h0' : (s.histIdx == 0 && true) = false := by simp; omega
+    simp only [hl0, Bool.false_eq_true, if_false, hlt, if_true, h0', histGet, hge, wp_bind, wp_setHistIdx]
+    have tail : ∀ s1 : Ed, s1.line = s.line →
+        wp (showEntry S U e (blen e))
+          (fun _ s' => wp (refreshLine S U cfg)
+            (fun _ s' => s'.line.buf = e ∧ s'.line.pos = blen e ∧ s'.histIdx = s.histIdx - 1) (fun _ _ => True) s')
+          (fun _ _ => True) { s1 with histIdx := s.histIdx - 1 } := by
+      intro s1 hl
+      refine wp_showEntry S U (by simp only []; rw [hl]; exact h1) (Nat.le_refl _) ?_
+      refine wp_refreshLine S U cfg (fun s' hc => ?_) (fun _ _ _ => trivial)
+      obtain ⟨c1, _, _, _, c5, _, _⟩ := Ed.core_eq hc
+      rw [c1, c5]; exact ⟨rfl, rfl, rfl⟩
+    split
+    · exact C07_wp_backup_any S U (fun sv => tail { s with saved := sv } rfl) trivial
+    · exact tail s rfl
+  have := wp_ok hw hrun
+  exact this
+
+/-- `k` repetitions of a navigation step -/
+def navIter (f : Nav → Nav) : Nat → Nav → Nav
+  | 0, n => n
+  | k + 1, n => navIter f k (f n)
+
+theorem C07_navPrev_iterate (hist : List Text) : ∀ (k : Nat) (n : Nav), n.idx = k → k ≤ hist.length →
+    navIter (navPrev hist) k n = navFirst hist n := by
+  intro k
+  induction k with
+  | zero => intro n h _; simp [navFirst, h, navIter]
+  | succ k ih =>
+    intro n h hk
+    have hlt : k < hist.length := by omega
+    have hge : hist[k]? = some hist[k] := by simp [hlt]
+    have hp : navPrev hist n = (⟨hist[k], blen hist[k], k,
+        (if k + 1 = hist.length then n.buf else n.savedBuf),
+        (if k + 1 = hist.length then n.pos else n.savedPos)⟩ : Nav) := by
+      simp [navPrev, h, hge]
+    rw [navIter, ih (navPrev hist n) (by rw [hp]) (by omega), hp]
+    have h0 : hist[0]? = some hist[0] := by simp
+    cases k with
+    | zero => simp [navFirst, h, h0]
+    | succ j =>
+      have : j + 1 ≠ hist.length := by omega
+      simp [navFirst, h, h0, this]
+
+theorem C07_navNext_iterate (hist : List Text) : ∀ (k : Nat) (n : Nav), n.idx + k = hist.length →
+    navIter (navNext hist) k n = navLast hist n := by
+  intro k
+  induction k with
+  | zero => intro n h; simp [navLast, navIter]; omega
+  | succ k ih =>
+    intro n h
+    have hlt : ¬ hist.length ≤ n.idx := by omega
+    rw [navIter]
+    cases k with
+    | zero =>
+      have hnone : hist[n.idx + 1]? = none := by simp; omega
+      simp [navNext, navLast, hlt, hnone, navIter]
+    | succ j =>
+      have hl2 : n.idx + 1 < hist.length := by omega
+      have hge : hist[n.idx + 1]? = some hist[n.idx + 1] := by simp [hl2]
+      have hp : navNext hist n = { n with buf := hist[n.idx + 1], pos := blen hist[n.idx + 1], idx := n.idx + 1 } := by
+        simp [navNext, hlt, hge]
+      rw [ih (navNext hist n) (by rw [hp]; simp only []; omega), hp]
+      have : ¬ hist.length ≤ n.idx + 1 := by omega
+      simp [navLast, this, hlt]
+
+/-! ### property theorems -/
+
+theorem C07_returns_of_wp {m : EM Unit} {s : Ed} {Q : Unit → Ed → Prop}
+    (h : wp m Q (fun _ _ => False) s) : ∃ s', m s = .ok ((), s') ∧ Q () s' := by
+  obtain ⟨a, s', h1, h2⟩ := returns_iff_wp.mpr h
+  exact ⟨s', h1, h2⟩
+
+/-- **Up / C-p / k**: from a navigable state (and with helpers that do not panic:
+    `hinterPanicAt = none`, here and in the three theorems below) the model never panics and does exactly the declarative
+    step: shows `hist[i-1]` verbatim with the cursor at its end, saves (text, cursor) iff it leaves the
+    in-progress line (`idx = len`), stops at the oldest entry. -/
+theorem C07_prev_refines (S : Segmenter) (U : UData) (cfg : EdCfg) (hnp : cfg.hinterPanicAt = none) (s : Ed)
+    (h : NavOK cfg s) :
+    ∃ s', editHistoryNext S U cfg true s = .ok ((), s') ∧ navOf s' = navPrev cfg.hist (navOf s) ∧ NavOK cfg s' :=
+  let ⟨s', h1, h2, h3, _⟩ := C07_returns_of_wp (C07_prev_spec S U cfg hnp s h)
+  ⟨s', h1, h2, h3⟩
+
+/-- **Down / C-n / j**: shows `hist[i+1]`, or — arriving at `len` — restores exactly the saved text
+    and cursor; stops at the in-progress line. -/
+theorem C07_next_refines (S : Segmenter) (U : UData) (cfg : EdCfg) (hnp : cfg.hinterPanicAt = none) (s : Ed)
+    (h : NavOK cfg s) :
+    ∃ s', editHistoryNext S U cfg false s = .ok ((), s') ∧ navOf s' = navNext cfg.hist (navOf s) ∧ NavOK cfg s' :=
+  let ⟨s', h1, h2, h3, _⟩ := C07_returns_of_wp (C07_next_spec S U cfg hnp s h)
+  ⟨s', h1, h2, h3⟩
+
+/-- **M-<** behaves like `idx` Ups (on line, cursor, index and saved line). -/
+theorem C07_first_is_iterated_prev (S : Segmenter) (U : UData) (cfg : EdCfg) (hnp : cfg.hinterPanicAt = none) (s : Ed)
+    (h : NavOK cfg s) :
+    ∃ s', editHistory S U cfg true s = .ok ((), s') ∧
+      navOf s' = navIter (navPrev cfg.hist) s.histIdx (navOf s) ∧ NavOK cfg s' := by
+  obtain ⟨s', h1, h2, h3, _⟩ := C07_returns_of_wp (C07_first_spec S U cfg hnp s h)
+  exact ⟨s', h1, by rw [h2, C07_navPrev_iterate cfg.hist s.histIdx (navOf s) rfl h.idx], h3⟩
+
+/-- **M->** behaves like `len - idx` Downs. -/
+theorem C07_last_is_iterated_next (S : Segmenter) (U : UData) (cfg : EdCfg) (hnp : cfg.hinterPanicAt = none) (s : Ed)
+    (h : NavOK cfg s) :
+    ∃ s', editHistory S U cfg false s = .ok ((), s') ∧
+      navOf s' = navIter (navNext cfg.hist) (cfg.hist.length - s.histIdx) (navOf s) ∧ NavOK cfg s' := by
+  obtain ⟨s', h1, h2, h3, _⟩ := C07_returns_of_wp (C07_last_spec S U cfg hnp s h)
+  refine ⟨s', h1, ?_, h3⟩
+  rw [h2, C07_navNext_iterate cfg.hist _ (navOf s) (by have := h.idx; simp only [navOf]; omega)]
+
+/-- the saved line is written only when leaving the in-progress position, with the text and cursor
+    of that moment; moving down never writes it -/
+theorem C07_saved_once (hist : List Text) (n : Nav) :
+    ((navPrev hist n).savedBuf, (navPrev hist n).savedPos) =
+      (if n.idx = hist.length ∧ n.idx ≠ 0 then (n.buf, n.pos) else (n.savedBuf, n.savedPos)) ∧
+    (navNext hist n).savedBuf = n.savedBuf ∧ (navNext hist n).savedPos = n.savedPos := by
+  refine ⟨?_, ?_, ?_⟩
+  · unfold navPrev
+    by_cases h0 : n.idx = 0
+    · simp [h0]
+    · simp only [h0, if_false]
+      cases hg : hist[n.idx - 1]? with
+      | none =>
+        have : ¬ n.idx = hist.length := by
+          intro h; rw [List.getElem?_eq_none_iff] at hg; omega
+        simp [this]
+      | some e =>
+        by_cases hl : n.idx = hist.length
+        · have hne : hist.length ≠ 0 := by omega
+          simp [hl, hne]
+        · simp [hl]
+  · unfold navNext; split; rfl; split <;> rfl
+  · unfold navNext; split; rfl; split <;> rfl
+
+/-- navigation and editing steps of the declarative machine; `edit` (any change of text and cursor)
+    is applied to a recalled entry only -/
+inductive NavOp | prev | next | first | last | edit (b : Text) (p : Nat)
+
+def navApply (hist : List Text) (n : Nav) : NavOp → Nav
+  | .prev => navPrev hist n
+  | .next => navNext hist n
+  | .first => navFirst hist n
+  | .last => navLast hist n
+  | .edit b p => if n.idx < hist.length then { n with buf := b, pos := p } else n
+
+/-- **Coming back restores the in-progress line, character for character with its cursor**: after any
+    sequence of Up / Down / first / last steps mixed with arbitrary edits of recalled entries, started
+    on the in-progress line `(b, p)`: whenever the index is back at `len` the line and cursor are
+    `(b, p)` again, and while an entry is shown the saved line is `(b, p)`. -/
+theorem C07_return_restores (hist : List Text) (n0 : Nav) (ops : List NavOp) (h0 : n0.idx = hist.length) :
+    let n := ops.foldl (navApply hist) n0
+    n.idx ≤ hist.length ∧ (n.idx = hist.length → n.buf = n0.buf ∧ n.pos = n0.pos) ∧
+    (n.idx < hist.length → n.savedBuf = n0.buf ∧ n.savedPos = n0.pos) := by
+  suffices H : ∀ (ops : List NavOp) (n : Nav),
+      (n.idx ≤ hist.length ∧ (n.idx = hist.length → n.buf = n0.buf ∧ n.pos = n0.pos) ∧
+        (n.idx < hist.length → n.savedBuf = n0.buf ∧ n.savedPos = n0.pos)) →
+      let n' := ops.foldl (navApply hist) n
+      (n'.idx ≤ hist.length ∧ (n'.idx = hist.length → n'.buf = n0.buf ∧ n'.pos = n0.pos) ∧
+        (n'.idx < hist.length → n'.savedBuf = n0.buf ∧ n'.savedPos = n0.pos)) by
+    exact H ops n0 ⟨by omega, fun _ => ⟨rfl, rfl⟩, fun h => by omega⟩
+  intro ops
+  induction ops with
+  | nil => intro n h; exact h
+  | cons op rest ih =>
+    intro n ⟨h1, h2, h3⟩
+    apply ih
+    cases op with
+    | prev =>
+      simp only [navApply, navPrev]
+      by_cases hz : n.idx = 0
+      · simp only [hz, if_true]; exact ⟨by omega, fun h => h2 (by omega), fun h => h3 (by omega)⟩
+      · simp only [hz, if_false]
+        have hlt : n.idx - 1 < hist.length := by omega
+        have hge : hist[n.idx - 1]? = some hist[n.idx - 1] := by simp [hlt]
+        rw [hge]
+        refine ⟨by simp only []; omega, fun h => by simp only [] at h; omega, fun _ => ?_⟩
+        by_cases hl : n.idx = hist.length
+        · simp only [hl, if_true]; exact h2 hl
+        · simp only [hl, if_false]; exact h3 (by omega)
+    | next =>
+      simp only [navApply, navNext]
+      by_cases hz : hist.length ≤ n.idx
+      · simp only [hz, if_true]; exact ⟨h1, h2, h3⟩
+      · simp only [hz, if_false]
+        cases hg : hist[n.idx + 1]? with
+        | some e =>
+          have : n.idx + 1 < hist.length := by
+            have := List.getElem?_eq_some_iff.mp hg; exact this.1
+          exact ⟨by simp only []; omega, fun h => by simp only [] at h; omega, fun _ => h3 (by omega)⟩
+        | none => exact ⟨Nat.le_refl _, fun _ => h3 (by omega), fun h => by simp only [] at h; omega⟩
+    | first =>
+      simp only [navApply, navFirst]
+      by_cases hz : n.idx = 0
+      · simp only [hz, if_true]; exact ⟨by omega, fun h => h2 (by omega), fun h => h3 (by omega)⟩
+      · simp only [hz, if_false]
+        have hge : hist[0]? = some hist[0] := by simp
+        rw [hge]
+        refine ⟨by simp only []; omega, fun h => by simp only [] at h; omega, fun _ => ?_⟩
+        by_cases hl : n.idx = hist.length
+        · simp only [hl, if_true]; exact h2 hl
+        · simp only [hl, if_false]; exact h3 (by omega)
+    | last =>
+      simp only [navApply, navLast]
+      by_cases hz : hist.length ≤ n.idx
+      · simp only [hz, if_true]; exact ⟨h1, h2, h3⟩
+      · simp only [hz, if_false]
+        exact ⟨Nat.le_refl _, fun _ => h3 (by omega), fun h => absurd h (Nat.lt_irrefl _)⟩
+    | edit b p =>
+      simp only [navApply]
+      by_cases hz : n.idx < hist.length
+      · rw [if_pos hz]; exact ⟨h1, fun h => absurd h (Nat.ne_of_lt hz), h3⟩
+      · rw [if_neg hz]; exact ⟨h1, h2, h3⟩
+
+/-- non-vacuity: three entries, Up Up Down Down from the in-progress line "xy" (cursor 1) -/
+example :
+    let hist : List Text := [['a'], ['b'], ['c']]
+    let n0 : Nav := ⟨['x', 'y'], 1, 3, [], 0⟩
+    let n := [NavOp.prev, .prev, .next, .next].foldl (navApply hist) n0
+    (navPrev hist (navPrev hist n0)).buf = ['b'] ∧ n.buf = ['x', 'y'] ∧ n.pos = 1 ∧ n.idx = 3 := by decide
